@@ -72,6 +72,51 @@ def _flatten(nested, ndim):
     return out
 
 
+def _norm_dtype(dtype):
+    if dtype is None:
+        return None
+    try:
+        return _np.dtype(dtype)
+    except TypeError:
+        return None
+
+
+def _infer_dtype(values):
+    """NumPy's result dtype for the element kinds pyrepseq produces (fixed-width unicode for all-str data)."""
+    if values and all(isinstance(v, str) or type(v).__name__ in ("LazyIntSymbolicStr", "AnySymbolicStr") or
+                      (hasattr(v, "__ch_pytype__") and v.__ch_pytype__() is str) for v in values):
+        return _np.dtype(f"<U{max(1, max(len(v) for v in values))}")
+    return None
+
+
+def _coerce_value(v, dt):
+    """element conversion on construction / assignment into an array of dtype dt (None = keep)"""
+    if dt is None:
+        return v
+    if dt.kind == "U":
+        width = dt.itemsize // 4
+        if not _is_strlike(v):
+            v = str(v)
+        return v[:width] if len(v) > width else v
+    if dt.kind in "iu":
+        if isinstance(v, bool):
+            return int(v)
+        if isinstance(v, int) and not hasattr(v, "var"):
+            return v
+        if v is None:
+            raise TypeError("int() argument must be a string, a bytes-like object or a real number, not 'NoneType'")
+        return int(v)          # floats / symbolic reals truncate toward zero, as NumPy's cast does
+    if dt.kind == "f":
+        if v is None:
+            return float("nan")
+        return _to_float(v)
+    return v
+
+
+def _is_strlike(v):
+    return isinstance(v, str) or (hasattr(v, "__ch_pytype__") and v.__ch_pytype__() is str)
+
+
 def _prod(shape):
     p = 1
     for s in shape:
@@ -87,7 +132,13 @@ class NDArray:
     def __init__(self, data, shape, dtype=None):
         self._d = data
         self.shape = tuple(shape)
-        self.dtype = dtype
+        self.dtype = dtype if dtype is None or isinstance(dtype, _np.dtype) else (_norm_dtype(dtype) if dtype not in ("int",) else _np.dtype(int))
+
+    def _co(self, v):
+        dt = self.dtype if isinstance(self.dtype, _np.dtype) else None
+        if dt is None or dt.kind not in "iufU":
+            return v
+        return _coerce_value(v, dt)
 
     # ------------------------------------------------------------ basics
     @property
@@ -139,6 +190,9 @@ class NDArray:
         if dtype in (str, "str"):
             return NDArray([x if isinstance(x, str) else str(x) for x in self._d], self.shape, dtype)
         return NDArray(list(self._d), self.shape, dtype)
+
+    def astype_dt(self, dt):
+        return _build(list(self._d), self.shape, dt)
 
     def reshape(self, *shape):
         if len(shape) == 1 and isinstance(shape[0], (tuple, list)):
@@ -253,10 +307,17 @@ class NDArray:
             r, c = self.shape
             ri, rk = self._axis_idx(key[0], r)
             ci, ck = self._axis_idx(key[1], c)
-            cells = [(a, b) for a in ri for b in ci]
+            fancy_r = isinstance(key[0], (list, NDArray))
+            fancy_c = isinstance(key[1], (list, NDArray))
+            if fancy_r and fancy_c:
+                if len(ri) != len(ci):
+                    raise IndexError("shape mismatch: indexing arrays could not be broadcast together")
+                cells = list(zip(ri, ci))
+            else:
+                cells = [(a, b) for a in ri for b in ci]
             vals = _broadcast_to(value, len(cells))
             for (a, b), v in zip(cells, vals):
-                self._d[a * c + b] = v
+                self._d[a * c + b] = self._co(v)
             return
         if isinstance(key, slice):
             idx = list(range(*key.indices(self.shape[0])))
@@ -265,19 +326,19 @@ class NDArray:
         else:
             idx = [self._row(key)]
             if self.ndim == 1:
-                self._d[idx[0]] = value
+                self._d[idx[0]] = self._co(value)
                 return
         if self.ndim == 1:
             vals = _broadcast_to(value, len(idx))
             for i, v in zip(idx, vals):
-                self._d[i] = v
+                self._d[i] = self._co(v)
             return
         step = _prod(self.shape[1:])
         vals = _broadcast_to(value, len(idx) * step)
         p = 0
         for i in idx:
             for j in range(step):
-                self._d[i * step + j] = vals[p]
+                self._d[i * step + j] = self._co(vals[p])
                 p += 1
 
     # ------------------------------------------------------------ arithmetic
@@ -447,32 +508,49 @@ def _broadcast_to(value, n):
 
 # ---------------------------------------------------------------- module-level functions
 def array(obj, dtype=None, copy=True):
+    dt = _norm_dtype(dtype)
     if isinstance(obj, NDArray):
-        return obj.copy()
+        res = obj.copy()
+        return res.astype_dt(dt) if dt is not None else res
     if type(obj).__name__ in ("Series", "Index") and hasattr(obj, "_values"):
-        return NDArray(list(obj._values), (len(obj._values),), dtype)
+        return _build(list(obj._values), (len(obj._values),), dt)
     if type(obj).__name__ == "DataFrame" and hasattr(obj, "_cols"):
         return obj.to_numpy()
     if isinstance(obj, (set, frozenset, dict)) or type(obj).__name__ in ("ShellMutableSet", "ShellMutableMap"):
-        return NDArray([obj], (), object)
-    if isinstance(obj, str) or not hasattr(obj, "__iter__"):
-        return NDArray([obj], (), dtype)
+        return NDArray([obj], (), _np.dtype(object))
+    if isinstance(obj, str) or _is_strlike(obj) or not hasattr(obj, "__iter__"):
+        return _build([obj], (), dt)
     if not isinstance(obj, (list, tuple, range, _np.ndarray)):
         obj = list(obj)
     shape = _shape_of(obj)
-    return NDArray(_flatten(obj, len(shape)), shape, dtype)
+    return _build(_flatten(obj, len(shape)), shape, dt)
+
+
+def _build(values, shape, dt):
+    if dt is None:
+        dt = _infer_dtype(values)
+        return NDArray(values, shape, dt)
+    if dt.kind == "U" and dt.itemsize == 0:            # plain `str`: width of the longest element
+        strs = [v if _is_strlike(v) else str(v) for v in values]
+        dt = _np.dtype(f"<U{max(1, max((len(v) for v in strs), default=1))}")
+        return NDArray(strs, shape, dt)
+    return NDArray([_coerce_value(v, dt) for v in values], shape, dt)
 
 
 def asarray(obj, dtype=None):
     if isinstance(obj, NDArray):
-        return obj
+        dt = _norm_dtype(dtype)
+        if dt is None or dt == obj.dtype:
+            return obj
+        return obj.astype_dt(dt)
     return array(obj, dtype)
 
 
 def zeros(shape, dtype=float):
     shape = (shape,) if isinstance(shape, int) else tuple(shape)
-    z = 0 if dtype in (int, "int", _np.int64, _np.uint8) else 0.0
-    return NDArray([z] * _prod(shape), shape, dtype)
+    dt = _norm_dtype(dtype) or _np.dtype(float)
+    z = 0 if dt.kind in "iu" else 0.0
+    return NDArray([z] * _prod(shape), shape, dt)
 
 
 def ones(shape, dtype=float):
@@ -483,7 +561,7 @@ def ones(shape, dtype=float):
 
 def empty(shape, dtype=float):
     shape = (int(shape),) if not isinstance(shape, (tuple, list)) else tuple(shape)
-    return NDArray([None] * _prod(shape), shape, dtype)
+    return NDArray([None] * _prod(shape), shape, _norm_dtype(dtype))
 
 
 def arange(*args):
